@@ -161,7 +161,13 @@ def run_parts(prop, tier, parts, rule, assumptions, replay_runner):
         @given(strategy)
         def test(case):
             try:
-                nt, cl = runner(case)
+                try:
+                    nt, cl = runner(case)
+                except BaseException as e:  # noqa
+                    # a Rust panic inside the extension surfaces as pyo3_runtime.PanicException
+                    if type(e).__name__ == "PanicException":
+                        raise Violation("%s panic inside the compiled extension" % prop, repr(e)[:500])
+                    raise
             except Violation as v:
                 if is_known(v.sig) and state["failing"] is None:
                     known_hits[is_known(v.sig)[0]] = known_hits.get(is_known(v.sig)[0], 0) + 1
